@@ -89,6 +89,15 @@ def do_config(args):
     return acc
 
 
+def do_fortify(chunk):
+    acc = do_chunk(chunk, rt.PATHS["vw-fortify"])
+    for v in acc.viol:
+        v["key"] = v["key"] + "@fortify"
+        v["detail"] = "[-O2 -D_FORTIFY_SOURCE=2] " + v["detail"]
+    acc.count("fortify_cases", len(chunk))
+    return acc
+
+
 def do_chunk(chunk, exe=None):
     acc = common.Acc()
     w = pool.Worker(exe) if exe else rt.vw(FL)
@@ -236,6 +245,12 @@ def do_static(args):
             acc.violation("%s/static-gensalt-failed/%s" % (PID, m), ln, rt.replay_obj(FL, [ln]))
             continue
         o = rt.unhx(r.get("o", "-")) if r["r"] == "S" else None
+        if r.get("kept") == "0" or r.get("again") == "0":
+            acc.violation("%s/static-setting-not-kept/%s" % (PID, m),
+                          "s = crypt_gensalt(...) = %r; after crypt(P, s) the string at s is %s and a second crypt(P, s) "
+                          "%s" % (g, "unchanged" if r.get("kept") == "1" else "no longer the setting",
+                                  "gives the same hash" if r.get("again") == "1" else "gives another answer"),
+                          rt.replay_obj(FL, [ln]))
         chk.append(rt.crypt_line("crypt_rn", 0, p, g))
         cidx.append((m, g, o, ln))
     rows = rt.run_resilient(w, [rt.obj_line(0)], chk, timeout=300)
@@ -254,11 +269,15 @@ def do_static(args):
 
 def run(tier):
     run_ = common.Run(PID, tier, "exploration")
-    rt.prepare([FL])
+    rt.prepare([FL, "fortify"])
     cases = make_cases(run_.seed, tier)
     for acc in pool.pmap(do_chunk, pool.chunks(cases, 24)):
         run_.merge(acc)
     for acc in pool.pmap(do_config, [(c, run_.seed, tier) for c in CONFIGS]):
+        run_.merge(acc)
+    # a -D_FORTIFY_SOURCE=2 build (how distributions build): the entry points once more, incl. buffers above 192 bytes
+    fcases = [c for c in cases if c["nr"] in (16, 32, 64)]
+    for acc in pool.pmap(do_fortify, pool.chunks(fcases, 24)):
         run_.merge(acc)
     ns = 20 if tier == "quick" else 1500
     for acc in pool.pmap(do_static, [(run_.seed * 50 + i, ns) for i in range(16)]):
@@ -277,6 +296,7 @@ def run(tier):
         "not_hashed_too_expensive": int(a.n.get("not_hashed", 0)),
         "static_result_passed_to_crypt": int(a.n.get("static_to_crypt", 0)),
         "cases_in_other_hash_selections": int(a.n.get("configuration_cases", 0)),
+        "cases_on_the_fortified_build": int(a.n.get("fortify_cases", 0)),
         "other_hash_selections": [n_ + "=" + ",".join(h_) for n_, h_ in CONFIGS],
         "flavour": FL,
     }
